@@ -8,6 +8,7 @@ import Gama.Model.Acord2
 import Gama.Model.PointId
 import Gama.Model.LinTypes
 import Gama.Model.TestLinearization
+import Gama.Model.RefineAdjustment
 open Gama Gama.Proto Gama.Cogo
 
 /-- numeric tokens: hex doubles, or decimal naturals (counts / flags) -/
@@ -394,6 +395,49 @@ def acord2Op (ts : List String) : String :=
 
 end AcordStream
 
+/-! ### `refine_obsdh_reductions` (Model/RefineAdjustment.lean over Gen/RefineObsdh.lean)
+
+  `obsdh adjusted nx x1 … xnx (k raw from_dh to_dh reduction F T)*` with `k` = 0 `S_Distance`, 1 `Z_Angle`, 2 any other
+  class, and a point block `x y z free_xy free_z index_x index_y index_z test_xyz`.  Observation `i` names the points
+  `2i` (from) and `2i+1` (to).  Output `ok status reduction…` (the stored reductions after the call). -/
+namespace ObsdhStream
+open Gama.Lin
+
+def chunk (n : Nat) : Nat → List Float → List (List Float)
+  | 0, _ => []
+  | fuel + 1, l => if l.length < n ∨ n = 0 then [] else l.take n :: chunk n fuel (l.drop n)
+
+def nat (f : Float) : Nat := f.toUInt64.toNat
+
+def ptOf (b : List Float) : Gama.Lin.Pt Float × (Nat × Nat × Nat) × Bool :=
+  match b with
+  | [x, y, z, fxy, fz, ix, iy, iz, h] =>
+    (⟨x, y, z, if fxy != 0 then .free else .fixed, if fz != 0 then .free else .fixed⟩, (nat ix, nat iy, nat iz), h != 0)
+  | _ => (⟨0, 0, 0, .fixed, .fixed⟩, (0, 0, 0), false)
+
+def run (a : List Float) : String :=
+  match a with
+  | adj :: nx :: rest =>
+    let x := rest.take (nat nx)
+    let recs := chunk 23 (rest.length + 1) (rest.drop (nat nx))
+    let pts : List (Gama.Lin.Pt Float × (Nat × Nat × Nat) × Bool) :=
+      recs.flatMap fun r => [ptOf ((r.drop 5).take 9), ptOf ((r.drop 14).take 9)]
+    let σ : Net Float :=
+      { pt := fun j => match pts[j]? with | some p => p.1 | none => ⟨0, 0, 0, .fixed, .fixed⟩, ori := fun _ => 0, xNorth := 0 }
+    let xyz : Nat → Bool := fun j => match pts[j]? with | some p => p.2.2 | none => false
+    let tab : List (Unk × Nat) := (pts.zipIdx.flatMap fun (p, j) =>
+      [((⟨j, .x⟩ : Unk), p.2.1.1), (⟨j, .y⟩, p.2.1.2.1), (⟨j, .z⟩, p.2.1.2.2)]).filter (·.2 != 0)
+    let idx : IdxState := ⟨x.length, tab⟩
+    let obs : List (RA.DObs Float) := recs.zipIdx.map fun (r, i) =>
+      let k : Kind := match nat (r.getD 0 2) with | 0 => .s_distance | 1 => .z_angle | _ => .h_diff
+      ⟨k, 0, 2 * i, 2 * i + 1, 0, r.getD 1 0, r.getD 2 0, r.getD 3 0, r.getD 4 0⟩
+    let res := RA.refineObsdh (adj != 0) σ xyz idx x obs
+    let reds := res.1.foldl (fun acc o => acc ++ " " ++ showFloat o.red) ""
+    s!"ok {if res.2.1 then 1 else 0}{reds}"
+  | _ => "bad-op"
+
+end ObsdhStream
+
 def step (_ : Unit) (line : String) : Unit × String :=
   let ts := tokens line
   match ts with
@@ -467,6 +511,7 @@ def step (_ : Unit) (line : String) : Unit × String :=
         | "gpolsdist", val :: v :: rest => polOp .s_distance val v (rest.take 8) ((rest.drop 8).take 8) [] 0 0
         | "gpolzangle", val :: v :: rest => polOp .z_angle val v (rest.take 8) ((rest.drop 8).take 8) [] 0 0
         | "testlin", _ :: pols => s!"flag {if GN.testLin pols then 1 else 0}"
+        | "obsdh", a => ObsdhStream.run a
         | _, _ => "bad-op"
       ((), r)
 
